@@ -85,7 +85,7 @@ mod verif_kani_tz {
             let hi_ok = k == z.n || u < z.tr[k].unix_leap_time;
             if lo_ok && hi_ok { if cnt == 0 { first = k; } else { second = k; } cnt += 1; }
             // the single boundary second that ends a skipped or repeated interval (only transitions that change the offset have one)
-            if k < z.n && o != ty(&z, k + 1).ut_offset as i64 && (local == z.tr[k].unix_leap_time + o || local == z.tr[k].unix_leap_time + ty(&z, k + 1).ut_offset as i64) { boundary = true; }
+            if k < z.n && o != ty(&z, k + 1).ut_offset as i64 && local == z.tr[k].unix_leap_time + o { boundary = true; }      // transition time read with the offset in effect before it
             k += 1;
         }
         let r = zr.find_local_time_type_from_local(local_dt);
